@@ -32,7 +32,7 @@ def generate(rng, seed, index, tier):
         kw["lamb_inc"] = float(rng.choice([1.5, 2.0, 10.0]))
     kw["iteration_limit"] = int(rng.choice([5, 30, 100], p=[0.2, 0.6, 0.2]))
     kw = gen.quiet_params(kw)
-    return gen.base_world(seed, ID, index, spec, x0, y0, kw, case={"faulted": bool(rng.random() < 0.5), "pts_seed": int(rng.integers(0, 2**31))})
+    return gen.base_world(seed, ID, index, spec, x0, y0, kw, case={"resolve": bool(rng.random() < 0.15), "faulted": bool(rng.random() < 0.5), "pts_seed": int(rng.integers(0, 2**31))})
 
 
 def _nontrivial(ex, bump):
